@@ -9,6 +9,8 @@ use pallas_traverse::{probe, Era, MultiEraBlock, MultiEraMeta, MultiEraTx};
 
 #[path = "../fixtures/w12.rs"]
 mod fx;
+#[path = "../fixtures/w12_cst.rs"]
+mod cst;
 
 pub const NAME: &str = "traverse";
 
@@ -119,6 +121,23 @@ pub fn generate(g: &mut Gen) {
         let b = gen_block(&mut rng, &ps[fam], fam);
         let n = fx::split_block(&b).map(|rb| rb.bodies.len()).unwrap_or(0);
         g.case(ops_for(&b, n, true));
+    }
+    // 2b. systematic single-site encoding mutants (def<->indef incl. empty containers, head widths,
+    //     chunked strings) of small corpus blocks, sites spread evenly and always incl. the last one
+    {
+        let mut rng = g.rng.fork();
+        let mut n_blk = 0;
+        for (_name, b) in fx::hex_files("block") {
+            if b.len() > (if g.thorough() { 20_000 } else { 4_000 }) { continue; }
+            n_blk += 1;
+            if !g.thorough() && n_blk > 12 { break; }
+            let n = fx::split_block(&b).map(|rb| rb.bodies.len().max(rb.byron_payloads.len())).unwrap_or(0);
+            for kind in [0usize, 1, 2, 4, 7] {
+                for m in cst::single_site_mutants(&b, kind, if g.thorough() { 60 } else { 10 }, &mut rng) {
+                    if MultiEraBlock::decode(&m).is_ok() { g.case(ops_for(&m, n, false)); }
+                }
+            }
+        }
     }
     // 3. probe on arbitrary prefixes: every first byte class x tag encodings
     let mut ops = vec![];
